@@ -13,7 +13,9 @@
    printer drops it: DESIGN.md F13), `Item::None`, the formatting switches (set_dotted, set_position,
    decor setters, *_formatted inserts).  Table::set_implicit(true) IS covered (BI_table / BI_aot carry the
    flag; a table marked implicit must still print something below itself, or it vanishes from the text):
-   that is what toml's DocumentFormatter produces, see Props/C06toml.v. *)
+   that is what toml's DocumentFormatter produces, see Props/C06toml.v.  One use of the array and decor setters IS
+   covered too (BV_array_ml): the multi-line layout the two `pretty` serializers give an array — set_prefix("\n    ") on
+   every element, set_trailing("\n"), set_trailing_comma(true) — see Props/C07text.v. *)
 From TV Require Import Base.Prelude Base.Utf8 Base.Winnow Gen.Consts.
 From TV Require Import Model.Datetime Spec.DatetimeSpec Model.Numbers Model.Tree Model.Parse Model.Document Model.Write Model.Encode Model.Build.
 From TV Require Import Proofs.BuiltRTBase Proofs.BuiltRTEncode Proofs.BuiltRTValue Proofs.BuiltRTLeaf Proofs.BuiltRTTop.
@@ -141,6 +143,33 @@ Definition ex_array : cval :=
 Example ex_array_roundtrip :
   exists v', parse_value_raw (display_value (render_value float_text (eval_value ex_array))) = POk v'
              /\ abs_value v' = abs_value (eval_value ex_array).
+Proof. eexists. split; vm_compute; reflexivity. Qed.
+
+(* the multi-line layout of an array (Pretty::visit_array_mut): elements behind a line break and four blanks, a comma
+   after each, the closing bracket on its own line; nested, inside an inline table, empty *)
+Definition ex_ml (es : list value) : value :=
+  VArray (map (fun e => IValue (ml_elem e)) es) (RExplicit [x0a]) true decor_default None.
+Definition ex_ml_value : value :=
+  ex_ml [value_from (SInt 1);
+         ex_ml [value_from (SString [x61]); value_from (SBool true)];
+         VInline (mk_inline_items [([x6b], ex_ml []); ([x6c], ex_ml [value_from (SInt 2)])]) REmpty false false decor_default None].
+Example ex_ml_built : BuiltValue scalar_ok key_ok ex_ml_value.
+Proof.
+  assert (D : decor_built decor_default) by (split; left; reflexivity).
+  repeat first [apply BV_array_ml | apply BV_inline | apply BV_scalar | apply Forall_cons | apply Forall_nil
+               | apply NoDup_cons | apply NoDup_nil | exact D | exact I | reflexivity
+               | (intros [H|[]]; discriminate H) | (intros []) ].
+Qed.
+Example ex_ml_text :
+  display_value (render_value float_text ex_ml_value)
+  = [x5b; x0a] ++ [x20; x20; x20; x20; x31; x2c; x0a]
+    ++ [x20; x20; x20; x20; x5b; x0a; x20; x20; x20; x20; x22; x61; x22; x2c; x0a; x20; x20; x20; x20; x74; x72; x75; x65; x2c; x0a; x5d; x2c; x0a]
+    ++ [x20; x20; x20; x20; x7b; x20; x6b; x20; x3d; x20; x5b; x0a; x5d; x2c; x20; x6c; x20; x3d; x20; x5b; x0a; x20; x20; x20; x20; x32; x2c; x0a; x5d; x20; x7d; x2c; x0a]
+    ++ [x5d].
+Proof. vm_compute. reflexivity. Qed.
+Example ex_ml_roundtrip :
+  exists v', parse_value_raw (display_value (render_value float_text ex_ml_value)) = POk v'
+             /\ abs_value v' = abs_value ex_ml_value.
 Proof. eexists. split; vm_compute; reflexivity. Qed.
 
 (* nesting: 79 levels are read back, 80 are printed but refused by the parser's recursion limit *)
